@@ -299,6 +299,21 @@ fn main() {
 		let text = std::fs::read_to_string(path).unwrap_or_else(|e| die(&format!("cannot read {}: {}", path.display(), e)));
 		let v: Value = mc_common::serde_json::from_str(&text).unwrap_or_else(|e| die(&format!("{} does not parse: {}", path.display(), e)));
 		let r = if v.get("replay").is_some() { &v["replay"] } else { &v };
+		if r.get("unsigned_sweep").is_some() {
+			// the sweep is small: re-run it and report what it finds
+			let mut found = 0;
+			for u in w.us.iter() {
+				let o = unsigned::sweep(u, 3);
+				for (oracle, id, detail) in o.problems.iter().take(5) {
+					println!("REPLAY: VIOLATION oracle={} {} {}", oracle, id, detail);
+					found += 1;
+				}
+			}
+			if found == 0 {
+				println!("REPLAY: no oracle fires");
+			}
+			std::process::exit(if found == 0 { 0 } else { 1 });
+		}
 		let era = r.get("era").and_then(|e| e.as_str()).and_then(Era::parse).unwrap_or_else(|| die("replay: era missing"));
 		let u = w.u(era);
 		let parse = |a: &Value| -> Vec<Step> {
